@@ -514,6 +514,7 @@ use crate::write::{BaseId, Dwarf, LineProgram};"""
     fbase.insert_at_loop_body(imp, 'new_with_filter', 0, f'''proof {{
                     // the slice handed to reserve_unit is r[cuts[k]..end]: the maximal run of reachable offsets inside unit k
                     lemma_partition_step(us, {R}, cuts, k, cuts[k], end as int); // [C19:reserve-reachable-only]
+                    assert(reserve_post(ru0, ids0, wus0, tb, {TABLES}, convert.wbase(), us[k], {R}.subrange(cuts[k], end as int))); // [C19:reserve-reachable-only]
                     lemma_step_roots(us, g, {R}, k, cuts[k], end as int, tb, n0, ru0, ids0, wus0, {TABLES}, convert.wbase()); // [C19:reserve-every-unit]
                     lemma_step_slices(us, g, {R}, cuts, k, cuts[k], end as int, tb, n0, ru0, ids0, wus0, {TABLES}, convert.wbase()); // [C19:reserve-reachable-only]
                     lemma_step_keys(us, {R}, k, cuts[k], end as int, tb, ru0, ids0, wus0, {TABLES}, convert.wbase()); // [C19:reserve-only]
